@@ -180,7 +180,7 @@ def _update_context(context: Dict[str, Any], type_: Any) -> Dict[str, Any]:
 
     if isinstance(type_, str):
         context[type_] = type_
-    elif str(type_).startswith('typing') or hasattr(type_, '__origin__'):
+    elif str(type_).startswith('typing') or hasattr(type_, '__origin__') or hasattr(type_, '__args__'):
         type_arguments = get_type_arguments(cls=type_)
 
         for type_argument in type_arguments:
